@@ -93,7 +93,8 @@ class LexModel:
     """next-token model of one lexer context (ordered terminals) on a bounded symbolic string"""
     _n = 0
 
-    def __init__(self, terms, lmax):
+    def __init__(self, terms, lmax, overrides=None):
+        """overrides: {terminal name: edited node list} used instead of parsing the terminal's regular expression"""
         LexModel._n += 1
         self.terms = terms
         self.names = [n for n, _ in terms]
@@ -103,7 +104,10 @@ class LexModel:
         ty = z3.IntVal(-1)
         end = z3.IntVal(-1)
         for idx in reversed(range(len(terms))):
-            o, e = m.first_end(terms[idx][1])
+            if overrides and terms[idx][0] in overrides:
+                o, e = m.first_end_nodes(overrides[terms[idx][0]])
+            else:
+                o, e = m.first_end(terms[idx][1])
             o = z3.And(o, e > 0)
             ty = z3.If(o, idx, ty)
             end = z3.If(o, e, end)
